@@ -14,6 +14,8 @@ import subprocess
 import sys
 import time
 import traceback
+import faulthandler
+import signal
 
 HERE = os.path.dirname(os.path.abspath(__file__))
 
@@ -31,6 +33,7 @@ def load(prop):
 
 
 def worker(args):
+    faulthandler.register(signal.SIGUSR1, all_threads=True)      # kill -USR1 <pid> prints where a slow worker is
     """One search process. Writes its counters and shrunk findings to args.out."""
     mod = load(args.prop)
     budget = mod.BUDGET[args.tier]
